@@ -249,6 +249,9 @@ fn main() {
 			*s = loc;
 		}
 	}));
+	// Library code that opens databases with default options (migrate, clear_column) must not
+	// spawn worker threads inside a single-threaded, replayable run.
+	parity_db::verif::SUPPRESS_WORKER_THREADS.store(true, Ordering::SeqCst);
 	let args: Vec<String> = std::env::args().collect();
 	let code = orchestrate::main(&args);
 	std::process::exit(code);
